@@ -210,6 +210,10 @@ def g_witness(R, tier):
     c06.native_finding(R, "pending_nodes.PendingWhile.get_result/W3-no-walrus-inside-the-loop-iterable",
                        "the while test is placed inside the iterable of a comprehension: `while (n := f()):` gives text that does not compile (assignment expression cannot be used in a comprehension iterable expression)",
                        "vals = [3, 2, 0]\nseen = []\nwhile (n := vals.pop(0)):\n    seen.append(n)\n")
+    c06.native_finding(R, "pending_nodes.PendingFor.get_result/W4-no-walrus-inside-the-iterable-of-a-for-loop",
+                       "a for loop without break/return puts its iterable into the `in` clause of a comprehension: `for x in (y := [1, 2]):` gives text "
+                       "that does not compile (assignment expression cannot be used in a comprehension iterable expression); loops with a break evaluate it outside",
+                       "seen = []\nfor x in (y := [1, 2]):\n    seen.append(x)\n")
 
 
 def _dflt(R, tier):
